@@ -52,7 +52,7 @@ PW = dict(overlays=['contracts/page_writer.ovl'], harness='harness/C09/page_writ
                    'codec compress / compress_bound (reported size <= capacity), carquet_crc32 (arbitrary value)'])
 JOBS += [
     dict(name='c09_compress_data', prop='C09', entry='h_c09_compress_data', functions=['compress_data'], **PW),
-    dict(name='c14_page_writer_finalize', prop='C14', entry='h_c14_finalize', functions=['carquet_page_writer_finalize', 'compress_data'], **PW),
+    dict(name='c14_page_writer_finalize', props=['C14', 'C19'], entry='h_c14_finalize', functions=['carquet_page_writer_finalize', 'compress_data'], **PW),
 ]
 
 # page decoders: harness-is-contract + loop contracts (enforce-contract's assigns instrumentation exhausts memory here)
